@@ -68,4 +68,39 @@ theorem parseExts_zero (buf : List Nat) (s : Option Sack) (c : Option Nat) (t : 
     parseExts 0 buf s c t = some (s, c, t) := by
   unfold parseExts; simp
 
+theorem byte_bit (c0 c1 c2 c3 c4 c5 c6 c7 : Bool) (j : Fin 8) :
+    (((if c0 then 1 else 0) + ((if c1 then 2 else 0) + ((if c2 then 4 else 0) + ((if c3 then 8 else 0) +
+      ((if c4 then 16 else 0) + ((if c5 then 32 else 0) + ((if c6 then 64 else 0) + ((if c7 then 128 else 0) + 0))))))))
+        / 2 ^ j.val % 2 = 1)
+    ↔ (match j.val with | 0 => c0 | 1 => c1 | 2 => c2 | 3 => c3 | 4 => c4 | 5 => c5 | 6 => c6 | _ => c7) = true := by
+  revert c0 c1 c2 c3 c4 c5 c6 c7 j
+  decide
+
+/-- **Bit `i` of a locally built selective ACK is set exactly when `i` is one of the given
+indices** (among those taken before the first index ≥ 64). -/
+theorem ofIndices_bit (idxs : List Nat) (i : Nat) (hi : i < 64) :
+    (Sack.ofIndices idxs).bit i = true ↔ i ∈ idxs.takeWhile (· < Gen.SACK_DEPTH) := by
+  have hD : Gen.SACK_DEPTH = 64 := by decide
+  unfold Sack.ofIndices Sack.bit
+  simp only [hD]
+  generalize idxs.takeWhile (· < 64) = kept
+  have hr : List.range 8 = [0, 1, 2, 3, 4, 5, 6, 7] := by decide
+  have hk : i / 8 < 8 := by omega
+  rw [List.getD_eq_getElem?_getD, List.getElem?_map, hr]
+  have hget : ([0, 1, 2, 3, 4, 5, 6, 7] : List Nat)[i / 8]? = some (i / 8) := by
+    have : i / 8 = 0 ∨ i / 8 = 1 ∨ i / 8 = 2 ∨ i / 8 = 3 ∨ i / 8 = 4 ∨ i / 8 = 5 ∨ i / 8 = 6 ∨ i / 8 = 7 := by omega
+    rcases this with h | h | h | h | h | h | h | h <;> rw [h] <;> rfl
+  rw [hget]
+  simp only [Option.map_some, Option.getD_some, List.map_cons, List.map_nil, List.sum_cons, List.sum_nil,
+    Nat.add_zero, decide_eq_true_eq]
+  have hb := byte_bit (kept.contains (i / 8 * 8 + 0)) (kept.contains (i / 8 * 8 + 1)) (kept.contains (i / 8 * 8 + 2))
+    (kept.contains (i / 8 * 8 + 3)) (kept.contains (i / 8 * 8 + 4)) (kept.contains (i / 8 * 8 + 5))
+    (kept.contains (i / 8 * 8 + 6)) (kept.contains (i / 8 * 8 + 7)) ⟨i % 8, by omega⟩
+  simp only [Nat.add_zero] at hb ⊢
+  rw [hb]
+  have : i % 8 = 0 ∨ i % 8 = 1 ∨ i % 8 = 2 ∨ i % 8 = 3 ∨ i % 8 = 4 ∨ i % 8 = 5 ∨ i % 8 = 6 ∨ i % 8 = 7 := by omega
+  have hi8 : i = i / 8 * 8 + i % 8 := by omega
+  rcases this with h | h | h | h | h | h | h | h <;> simp only [h] <;> rw [List.contains_iff_mem] <;>
+    (conv => rhs; rw [hi8, h]) <;> (try rw [Nat.add_zero])
+
 end UtpVerif.Lemmas.Wire
